@@ -72,7 +72,19 @@ func c19CheckPure(size int64, c uint32, sidecarDir string) (string, string) {
 	} else {
 		// only indices the sender can actually be asked for (i < n): the statement is about
 		// the tiles of the file, not about indices beyond its end
-		for _, i := range []uint64{0, 1, 2, ref.n / 2, ref.n - 3, ref.n - 2, ref.n - 1, 1<<31 - 1, 1 << 31} {
+		cand := []uint64{0, 1, 2, ref.n / 2, ref.n - 3, ref.n - 2, ref.n - 1, 1<<31 - 1, 1 << 31}
+		// where 32-bit arithmetic would wrap: chunks whose offset, or whose distance to the end
+		// of the file, sits next to a multiple of 2^32
+		for k := uint64(1); k <= 4; k++ {
+			at := k << 32
+			lo := at / uint64(c)
+			cand = append(cand, lo-1, lo, lo+1)
+			if uint64(size) > at {
+				d := (uint64(size) - at) / uint64(c)
+				cand = append(cand, d-1, d, d+1)
+			}
+		}
+		for _, i := range cand {
 			if i < ref.n {
 				idxs = append(idxs, i)
 			}
